@@ -102,6 +102,7 @@ pub fn worker_main(args: &[String]) -> i32 {
         libc::setrlimit(libc::RLIMIT_CORE, &zero);
     }
     fw::install_quiet_panic_hook();
+    fw::BUDGET_MANAGED_BY_CALLER.store(true, Ordering::SeqCst);
     alloc::enable(cap);
     let stdin = std::io::stdin();
     let mut input = BufReader::new(stdin.lock());
